@@ -565,6 +565,9 @@ package jlib
 //@ func Merge
 //@   props C14 C09
 //@   requires ifaceable(objs)
+//@   ensures [C14:needs-objects] (kind(res(objs)) != 21 && kind(res(objs)) != 25 && !arrKind(kind(res(objs)))) ==> (r0 == nil && r1 != nil)
+//@   ensures [C14:error-has-no-result] r1 != nil ==> r0 == nil
+//@   ensures [C14:result-is-an-object] r1 == nil ==> r0 != nil
 //@ func mergeMap
 //@   props C14 C09
 //@   requires dest != nil && kind(src) == 21 && canif(src)
@@ -617,6 +620,9 @@ package jlib
 //@   props C09 C18
 //@   requires ifaceable(options.Value)
 //@   requires [picture-shorter-than-1GiB] len(picture) <= 1073741824
+//@   ensures [C18:options-must-be-an-object] (options.isSet && kind(res(options.Value)) != 21) ==> (r1 != nil && len(r0) == 0)
+//@   atcall[C18:the-number-and-the-picture-as-given] FormatNumber#0 requires same(callee_value, value) && same(callee_picture, picture)
+//@   atcall[C18:the-number-and-the-picture-as-given] FormatNumber#1 requires same(callee_value, value) && same(callee_picture, picture) && callee_format == ret("newDecimalFormat#0", 0)
 //@ func newDecimalFormat
 //@   props C09 C18
 //@   requires kind(opts) == 21 && canif(opts)
@@ -629,6 +635,10 @@ package jlib
 //@   assigns deref(format)
 //@ func FormatBase
 //@   props C09 C18
+//@   ensures [C18:radix-error-has-no-text] r1 != nil ==> len(r0) == 0
+//@   atif[C18:radix-at-least-2] "radix < 2" iff radix < 2
+//@   atif[C18:radix-at-most-36] "radix > 36" iff radix > 36
+//@   atcall[C18:digits-in-the-requested-radix] strconv.FormatInt#0 requires callee_arg1 == radix
 //@ func Base64Encode
 //@   props C09
 //@ func Base64Decode
